@@ -26,6 +26,7 @@ REQUIRED = ["no_loss", "admitted_by_commit", "only_admitted_delivered", "save_ev
             # deepening round 2026-09-28 (NutsProofs.Props.C14Ops): construction side, non-persistent path, machine arithmetic
             "options_persistent_iff", "options_filters_accumulate", "options_last_delay_wins", "options_default_delay",
             "registry_names_unique", "first_registration_stays", "register_duplicate_refused", "save_proceeds_iff", "save_nonpersistent_iff",
+            "calls_bounded_by_budget", "duplicate_payload_write_is_silent", "duplicate_payload_calls_again_without_guard", "fact_writePayload_notifies_only_what_it_saved",
             "np_calls_bounded", "np_gives_up_after_budget", "retry_attempts_machine", "retry_attempts_refines", "retry_delay_never_overflows"]
 
 
